@@ -34,6 +34,10 @@ pub struct SvcIdentity {
     /// unauthenticated packets: (claimed peer index, source address kind 0 the record's socket /
     /// 1 other port / 2 other ip / 3 IPv6, claimed id unknown to the service instead)
     pub probes: Vec<(u8, u8, bool)>,
+    /// reports of the handler that a peer A presented a record it could not vouch for: (A = member
+    /// index, the record is that of another member Y = index) - only A proved anything, and only about A
+    #[serde(default)]
+    pub foreign_reports: Vec<(u8, u8)>,
 }
 
 async fn run_svc_identity(c: &SvcIdentity, rep: &mut CaseReport) -> Option<(String, String)> {
@@ -96,6 +100,33 @@ async fn run_svc_identity(c: &SvcIdentity, rep: &mut CaseReport) -> Option<(Stri
             rep.nontrivial = true;
             rep.class("service-companion/table-member-claimed-from-another-socket");
         }
+    }
+    for (ai, yi) in c.foreign_reports.iter().take(4) {
+        if members.len() < 2 {
+            break;
+        }
+        let a = members[*ai as usize % members.len()];
+        let mut y = members[*yi as usize % members.len()];
+        if y == a {
+            y = members[(*yi as usize + 1) % members.len()];
+        }
+        let before = snapshot(&s);
+        // A (session established, proved to be A) answered the record request with Y's genuine record
+        s.inject(HandlerOut::UnverifiableEnr { enr: shaped_record(y, 1, Shape::V4), socket: svc_addr4(a), node_id: ids::node_id(&keys::id_of(a)) }).await;
+        let after = snapshot(&s);
+        s.take_events();
+        s.take_outbox();
+        let yid = keys::id_of(y);
+        let yb = before.iter().find(|e| e.0 == yid);
+        let ya = after.iter().find(|e| e.0 == yid);
+        if yb.is_some() && yb != ya {
+            return Some((
+                "identity/table-entry-of-a-third-node-changed".into(),
+                format!("peer {} presented the record of node {} which it could not vouch for; the routing-table entry of THAT node changed from {:?} to {:?} although it took part in nothing", ids::hex_id(&keys::id_of(a)), ids::hex_id(&yid), yb.map(|e| &e.2), ya.map(|e| &e.2)),
+            ));
+        }
+        rep.class("service-companion/unverifiable-report-with-a-third-node's-record");
+        rep.nontrivial = true;
     }
     s.d.shutdown();
     None
@@ -369,8 +400,9 @@ impl Property for C01 {
             wire_gen::config_strategy(false),
             proptest::collection::vec((any::<u8>(), any::<bool>()), 1..8),
             proptest::collection::vec((any::<u8>(), 0u8..4, prop_oneof![4 => Just(false), 1 => Just(true)]), 1..8),
+            proptest::collection::vec((any::<u8>(), any::<u8>()), 0..3),
         )
-            .prop_map(|(cfg, peers, probes)| Case { cfg, ops: vec![], svc: Some(SvcIdentity { peers, probes }) });
+            .prop_map(|(cfg, peers, probes, foreign_reports)| Case { cfg, ops: vec![], svc: Some(SvcIdentity { peers, probes, foreign_reports }) });
         prop_oneof![60 => wire, 1 => companion].boxed()
     }
     fn run(case: &Case) -> CaseReport {
@@ -386,7 +418,7 @@ impl Property for C01 {
         rep
     }
     fn rule() -> String {
-        "attack scripts (<=25 quick / <=60 thorough ops) against V with 1..3 honest peers exchanging genuine traffic: for a claimed id X in {an honest peer known to V with its current record, with an older record, unknown to V, a random id} the attacker (own keys, 3 source addresses, never a peer's secret key) sends undecryptable probes to provoke V's WHOAREYOU, then handshakes built with the real primitives: signed by an attacker key / garbage / empty / truncated, ephemeral key valid / invalid point / wrong length, attached record = the attacker's own record (seq 0, below, equal, above the known one, 2^64-1; address matching / other / absent), the peer's genuine record, a third party's record, none; bodies PING / FINDNODE / TALK encrypted under the keys the attacker can derive, follow-up messages under those keys, replays, forged WHOAREYOUs, and requests V sends to the peer's key at an attacker address. Invariant after every step: no request/response/Established/UnverifiableEnr attributed to a foreign id at an attacker address, no session keyed to it created by an inbound handshake, nothing V emits to it decrypts under an attacker-derivable key, and honest sessions/requests are untouched by steps that only process attacker traffic. One case in 61 is a companion on the service engine: a real service with 1..8 table members (incoming and outgoing) receives the handler's who-are-you query - the one handler event triggered by a datagram nobody authenticated - for a member's id or an unknown id from the record's socket, another port, another IP or an IPv6 address; the routing table (ids, record versions, connection status) must be unchanged afterwards and no event may be emitted. Non-trivial = a forged handshake whose id-signature verifies under the attached record's key arrives while V's WHOAREYOU to (X, attacker address) is outstanding.".into()
+        "attack scripts (<=25 quick / <=60 thorough ops) against V with 1..3 honest peers exchanging genuine traffic: for a claimed id X in {an honest peer known to V with its current record, with an older record, unknown to V, a random id} the attacker (own keys, 3 source addresses, never a peer's secret key) sends undecryptable probes to provoke V's WHOAREYOU, then handshakes built with the real primitives: signed by an attacker key / garbage / empty / truncated, ephemeral key valid / invalid point / wrong length, attached record = the attacker's own record (seq 0, below, equal, above the known one, 2^64-1; address matching / other / absent), the peer's genuine record, a third party's record, none; bodies PING / FINDNODE / TALK encrypted under the keys the attacker can derive, follow-up messages under those keys, replays, forged WHOAREYOUs, and requests V sends to the peer's key at an attacker address. Invariant after every step: no request/response/Established/UnverifiableEnr attributed to a foreign id at an attacker address, no session keyed to it created by an inbound handshake, nothing V emits to it decrypts under an attacker-derivable key, and honest sessions/requests are untouched by steps that only process attacker traffic. One case in 61 is a companion on the service engine: a real service with 1..8 table members (incoming and outgoing) receives the handler's who-are-you query - the one handler event triggered by a datagram nobody authenticated - for a member's id or an unknown id from the record's socket, another port, another IP or an IPv6 address; the routing table (ids, record versions, connection status) must be unchanged afterwards and no event may be emitted; and reports that a member A presented the record of another member Y which it could not vouch for must leave Y's entry untouched. Non-trivial = a forged handshake whose id-signature verifies under the attached record's key arrives while V's WHOAREYOU to (X, attacker address) is outstanding.".into()
     }
     fn assumptions() -> Vec<String> {
         vec![
